@@ -99,7 +99,19 @@ fn g_arc(rng: &mut Rng, tier: Tier) -> Case {
             Rat::new(m, 10i64.pow((-e) as u32))
         }
     };
-    let (l1, l2) = (len(rng), len(rng));
+    let (mut l1, mut l2) = (len(rng), len(rng));
+    // lengths with src.dst = 1 exactly although the directions differ (|src||dst| is what matters, not 1)
+    if class == 0 && rng.chance(1, 5) {
+        let (cw, sw) = (c.r[6], c.r[7]);
+        // cos(rotation angle) = cw^2 - sw^2
+        let cosn = cw.n * cw.n * sw.d * sw.d - sw.n * sw.n * cw.d * cw.d;
+        let cosd = cw.d * cw.d * sw.d * sw.d;
+        if cosn > 0 && cosd < 1_000_000_000 {
+            let k = rng.range(1, 4);
+            l1 = Rat::int(k);
+            l2 = Rat::new(cosd, cosn * k);
+        }
+    }
     c.push_r(&[l1, l2]);
     c.push_k(&[rng.below(2) as i64]); // fallback given?
     c
